@@ -396,6 +396,22 @@ def ctor_runs(h, res=None, memo="empty", flag=False):
             post, links = p.post()
             yield Rec(family="S", lcls=kcls, ends=("a", "b"), op="create-typeerror", arg=bad_at, out=out, mr=None, p=p, pre=p.pre, post=post, links=links,
                       model=p.model, qual=QUAL["create"], icls=f"non-vertex-at-v{bad_at + 1}", replay="")
+    # Link(vertices=[...]) on a plain Link subclass: every listed vertex is associated once
+    for pattern in (("a", "b"), ("a", "b", "a"), ("a", None)):
+        p = Pre(h, "DirectedEdge", ("a", "b"), memo, flag)
+        try:
+            out = h.call(h.cls("SymLink"), vertices=Seq([p.arg(x) for x in pattern], "list"))
+        except Unknown as u:
+            if res is not None:
+                res.ob(False)
+                res.undecide(f"SymLink(vertices={pattern}): {u}")
+            continue
+        e = p.model.new_link("SymLink")
+        for x in pattern:
+            m_add_vertex(p.model, e, x)
+        post, links = p.post()
+        yield Rec(family="S", lcls="SymLink", ends=("a", "b"), op="create", arg=pattern, out=out, mr=e, p=p, pre=p.pre, post=post, links=links, model=p.model,
+                  qual="edgegraph.structure.link.Link.__init__", icls=f"vertices-listed={len(pattern)},repeats={len(pattern) - len(set(pattern))}", replay="")
     # Vertex(links=[L]) / Vertex(links=[L, L])
     for lcls in ("DirectedEdge", "SymLink"):
         for reps in (1, 2):
@@ -433,9 +449,9 @@ class PreC:
     """Concrete pre-state: vertices a, b, c; joining links J_i between a and b (or self-loops on a when
     selfloop); one non-joining link K = DirectedEdge(a, c) placed first, between or last in a.links."""
 
-    def __init__(self, h, joins, selfloop=False, kpos=0, memo="empty", flag=False, brev=False):
+    def __init__(self, h, joins, selfloop=False, kpos=0, memo="empty", flag=False, brev=False, half=False):
         self.h = h
-        key = ("C", tuple(c for c, _ in joins))
+        key = ("C", tuple(c for c, _ in joins), half)
         pool = h.rollback(key)
         if pool is None:
             h.reset()
@@ -443,6 +459,8 @@ class PreC:
             for i, (cls, orient) in enumerate(joins):
                 pool[f"J{i}"] = h.link(f"J{i}", cls, [])
             pool["K"] = h.link("K", "DirectedEdge", [])
+            if half:
+                pool["N"] = h.link("N", "DirectedEdge", [])
             h.checkpoint(key, pool)
         V = {r: pool[r] for r in VROLES}
         self.V = V
@@ -462,6 +480,12 @@ class PreC:
         self.links["K"] = K
         al = list(js)
         al.insert(min(kpos, len(al)), K)
+        if half:
+            # a half-assigned edge a -> None sits in a.links as well (it joins a to no vertex)
+            N = pool["N"]
+            N.fields["_vertices"] = Seq([a, None], "list")
+            self.links["N"] = N
+            al.insert(0, N)
         a.fields["_links"] = Seq(al, "list")
         if not selfloop:
             V["b"].fields["_links"] = Seq(list(reversed(js)) if brev else list(js), "list")
@@ -515,10 +539,10 @@ def explicit_runs(h, res=None, memo="empty", flag=False, thorough=False):
             for kpos in ((0, 2) if not thorough else (0, 1, 2)):
                 bname = "a" if selfloop else "b"
                 # ---- unlink(a, b, destroy)
-                for destroy in (True, False):
+                for destroy, half in ((True, False), (False, False), (False, True)):
                     for swap in (False, True):
                         def thunk():
-                            p = PreC(h, joins, selfloop, kpos, memo, flag)
+                            p = PreC(h, joins, selfloop, kpos, memo, flag, half=half)
                             x, y = ("a", bname) if not swap else (bname, "a")
                             out = h.call(fns["unlink"], p.arg(x), p.arg(y), destroy)
                             J = m_joining(p.model, x, y)
@@ -534,18 +558,20 @@ def explicit_runs(h, res=None, memo="empty", flag=False, thorough=False):
                                 post, links = p.post()
                                 yield Rec(family="C", lcls="+".join(c04.KINDS[c] + o for c, o in joins) or "none", ends=(), op="unlink", arg=(destroy, swap), out=out, mr=mr, p=p,
                                           pre=p.pre, post=post, links=links, model=p.model, qual=QUAL["unlink"],
-                                          icls=f"joining={len(joins)},selfloop={selfloop},destroy={destroy}", replay="", choices=tuple(choices))
+                                          icls=f"joining={len(joins)},selfloop={selfloop},destroy={destroy}" + (",half-assigned-link-present" if half else ""), replay="", choices=tuple(choices) + (half,))
                         except Unknown as u:
                             if res is not None:
                                 res.ob(False)
                                 res.undecide(f"explicit.unlink on {joins} selfloop={selfloop}: {u}")
                 # ---- link_from_to / link_directed / link_undirected (+- dontdup)
                 for fname, kcls in (("link_from_to", "DirectedEdge"), ("link_from_to", "UnDirectedEdge"), ("link_from_to", "SymTwo"), ("link_directed", None), ("link_undirected", None)):
-                    for dontdup, brev in ((False, False), (True, False), (True, True)):
-                        if brev and (len(joins) < 2 or selfloop):
+                    for dontdup, brev in ((False, False), (True, False), (True, True), (True, "half")):
+                        if brev is True and (len(joins) < 2 or selfloop):
                             continue   # b listing the parallel links in the opposite order (reachable by re-pointing ends)
+                        if brev == "half" and fname != "link_from_to":
+                            continue
                         for swap in (False, True):
-                            p = PreC(h, joins, selfloop, kpos, memo, flag, brev=brev)
+                            p = PreC(h, joins, selfloop, kpos, memo, flag, brev=(brev is True), half=(brev == "half"))
                             x, y = ("a", bname) if not swap else (bname, "a")
                             try:
                                 if fname == "link_from_to":
